@@ -78,9 +78,9 @@ const char* SkipToMatchingQuote(const char* s) {
   assert((*s == '\'') || (*s == '"'));
   char quote = s[0];
   ++s;
-  while (*s != quote)
+  while (*s && *s != quote)
     ++s;
-  return ++s;
+  return *s ? ++s : s;
 }
 
 struct Deleter {
@@ -272,7 +272,9 @@ std::string OptionHelper<std::string>::Parse(const char *&s, bool splitString) {
   if (quoted(s))
   {
     s = SkipToMatchingQuote(s);
-    return std::string(start + 1, s - start - 2);
+    // Without a closing quote the value extends to the end of the string.
+    bool closed = s - start >= 2 && s[-1] == *start;
+    return std::string(start + 1, s - start - (closed ? 2 : 1));
   }
   else
   {
